@@ -436,6 +436,50 @@ func init() {
 			var c value = structure{args[0]}
 			return &c
 		},
+		// unsafe string/byte-slice casts of the msgpack library: plain conversions
+		"github.com/vmihailenco/msgpack/v5.bytesToString": func(fr *frame, args []value) value {
+			return mkStr(args[0].([]value))
+		},
+		"github.com/vmihailenco/msgpack/v5.stringToBytes": func(fr *frame, args []value) value {
+			return strBytes(args[0])
+		},
+		// The reflection-driven entry of the msgpack encoder, summarised for values that implement msgpack.Marshaler:
+		// the library calls MarshalMsgpack and writes the bytes it returns (vmihailenco/msgpack encode_value.go,
+		// marshalValue). Anything else would need real reflection.
+		"(*github.com/vmihailenco/msgpack/v5.Encoder).EncodeValue": func(fr *frame, args []value) value {
+			i := fr.i
+			t, v := rV2T(args[1]).t, rV2V(args[1])
+			if t == nil {
+				i.abort("unsupported", "msgpack Encoder.EncodeValue of an invalid reflect.Value")
+			}
+			mset := i.prog.MethodSets.MethodSet(t)
+			var sel *types.Selection
+			for k := 0; k < mset.Len(); k++ {
+				if mset.At(k).Obj().Name() == "MarshalMsgpack" {
+					sel = mset.At(k)
+				}
+			}
+			if sel == nil {
+				i.abort("unsupported", "msgpack Encoder.EncodeValue of a type without MarshalMsgpack: "+t.String())
+			}
+			fn := i.prog.MethodValue(sel)
+			res := call(i, fr, fr.fn.Pos(), fn, []value{v}).(tuple)
+			if e, ok := res[1].(iface); ok && e.t != nil {
+				return res[1]
+			}
+			var write *ssa.Function
+			encT := args[0].(*value)
+			_ = encT
+			if pkg := i.prog.ImportedPackage("github.com/vmihailenco/msgpack/v5"); pkg != nil {
+				if et := pkg.Type("Encoder"); et != nil {
+					write = i.prog.LookupMethod(types.NewPointer(et.Type()), pkg.Pkg, "write")
+				}
+			}
+			if write == nil {
+				i.abort("unsupported", "msgpack Encoder.write not found")
+			}
+			return call(i, fr, fr.fn.Pos(), write, []value{args[0], res[0]})
+		},
 		// a crc64 digest accumulates its input; the sum is the checksum of everything written (native on concrete
 		// bytes, the uninterpreted function on symbolic ones)
 		"(*hash/crc64.digest).Write": func(fr *frame, args []value) value {
